@@ -150,8 +150,12 @@ CHECKS["C16"] = {
     "rule": "the C03 histories with (i) copy isolation: after a copy, an observation snapshot (is_bottom, is_top, at(v) for all v, 8 entailment probes) "
             "of every value not operated on by a step must be unchanged after that step and its witnesses must remain members; (ii) queries, "
             "operator[], normalize(), minimize() leave the value <=-equal to a pre-copy and keep all witnesses; (iii) h_histg / h_histv: the same history on D "
-            "and on abstract_domain_ref<var>(D) resp. abstract_domain<var>(D) must give equal snapshots and equal <= answers after every step; non-trivial = a copy followed by "
-            ">= 2 mutations and >= 1 observation of an untouched value; distinct = hash of the decoded history",
+            "and on abstract_domain_ref<var>(D) resp. abstract_domain<var>(D) must give equal snapshots and equal <= answers after every step; (iv) moves: the result of a "
+            "binary operation (history) / of every widening of a widening chain (3 in 8 of the C16 cases are chains with loop bodies and guards) is copied, then move-assigned into an "
+            "existing value: the moved-to value and the copy must give equal snapshots, directly and after normalize() of a copy of each; C16 histories start (3 in 4) from values that "
+            "bind every integer variable and share their representation (A0 built by assignments, other values copies of it), a fifth of their steps are copies and the three steps after "
+            "a copy usually operate on the copy or its source; non-trivial = a copy followed by "
+            ">= 2 mutations and >= 1 observation of an untouched value (history) / a chain with >= 1 strict increase and a compared move; distinct = hash of the decoded case",
     "assumptions": PROG_ASSUME + ["snapshots are taken twice at copy time so that lazily cached representation changes settle before comparison"],
     "min_nontrivial_frac": 0.05,
 }
